@@ -264,7 +264,7 @@ def document(draw):
     xf_mode = draw(st.sampled_from(["general", "general", "general", "translate", "none"]))
     units_mode = draw(st.sampled_from(["user", "user", "bbox", "bbox", "mixed"]))
     S = {"mode": mode, "xf_mode": xf_mode, "units_mode": units_mode, "force_user_space": mode != "plain", "feat": set(), "usable": []}
-    cfg = docs.Cfg(transforms=xf_mode != "none", groups=True, use=True, nested=False, display=False, clip=mode == "clip", max_leaves=4, max_depth=3)
+    cfg = docs.Cfg(transforms=xf_mode != "none", groups=True, use=True, nested=False, display=False, clip=mode == "clip", max_leaves=4, max_depth=3, micro=False)  # micro-scale groups make no sense here: transforms are rewritten below
     cx = docs._Ctx(cfg, box)
     root = node("svg", {"viewBox": f"{fmt(box.x)} {fmt(box.y)} {fmt(box.w)} {fmt(box.h)}"})
     # ---- gradients
